@@ -14,7 +14,7 @@ LEVEL = "model_checking"
 TECHNIQUE = "(a) breadth-first explicit-state search over constructor / encode / decode / discard histories over pairs and triples of command classes with a differential oracle (same operation alone); (b) preemption-bounded exhaustive enumeration of thread schedules at source-line granularity under a sys.settrace + semaphore-baton scheduler owning real threads"
 RULE = ("(a) pool of 10 classes chosen to collide (6/10/12/16-byte CDBs, inherited layout, constructors that raise after touching shared state, "
         "mutable arguments); operations new(X, 2 argument variants), new-invalid(X), X.unmarshall_cdb, X.marshall_cdb, repeat-marshal with the same "
-        "caller objects, deep copy of a live command (then modified), display helpers (print_cdb / print / repr) of a command, a caller-owned segment dictionary re-used after the caller changed its kind (also after a refused construction), first-use in 13 fresh processes (see C02), every pool class and decoder 300 (thorough 1100 / 66000) times in a row, each repetition observing what the first did; EXTENDED COPY segment kinds A, B, A in fresh processes (6 kinds x flag keys, both classes: bytes or refusal of A unchanged), the same battery of builds and decodes in 6 interpreters differing only in PYTHONHASHSEED, two commands over one caller-owned buffer with the first discarded and garbage-collected (WRITE, WRITE SAME, EXTENDED COPY inline data, ATA PASS-THROUGH 12/16 x all 256 ATA command codes x both directions), del; BFS with de-duplication on a digest of class-level state + live objects, all pairs to depth 4 (thorough 5) and all "
+        "caller objects, deep copy of a live command (then modified), display helpers (print_cdb / print / repr) of a command, a caller-owned segment dictionary re-used after the caller changed its kind (also after a refused construction), first-use in 13 fresh processes (see C02), an opcode scan (a CDB marshalled for each of the 256 operation code values, 4 orders) with the pool classes observed before and after every 32 values; every pool class and decoder 300 (thorough 1100 / 66000) times in a row, each repetition observing what the first did; EXTENDED COPY segment kinds A, B, A in fresh processes (6 kinds x flag keys, both classes: bytes or refusal of A unchanged), the same battery of builds and decodes in 6 interpreters differing only in PYTHONHASHSEED, two commands over one caller-owned buffer with the first discarded and garbage-collected (WRITE, WRITE SAME, EXTENDED COPY inline data, ATA PASS-THROUGH 12/16 x all 256 ATA command codes x both directions), del; BFS with de-duplication on a digest of class-level state + live objects, all pairs to depth 4 (thorough 5) and all "
         "triples to depth 3 (thorough 4); in every state every live object and every class's codec is compared with what the same call yields "
         "alone; decode histories A,B,A over every ordered pair of 20 response kinds in a fresh process (result for A identical before and after B). (b) 2 threads (thorough: also 3), each 'c=X(..); bytes(c.cdb); X.unmarshall_cdb; X.marshall_cdb; len(c.datain)', every ordered "
         "pair of pool classes, plus decoder threads (standard INQUIRY, VPD 83h, MODE SENSE(10), REPORT LUNS, RTPG, READ FULL STATUS, READ ELEMENT STATUS, sense) in all ordered pairs, all schedules with at most 1 preemption at every traced source line of the library (thorough: also all schedules with at most 2 preemptions at function-entry granularity for the pairs over 5 classes of different CDB lengths, and 2 preemptions at "
@@ -94,6 +94,7 @@ def partitions(tier):
     parts += [["discard"], ["hashseed"]]
     parts += [["segstar", ver, kind, ek] for ver in (4, 5) for kind in SEG_KINDS for ek in ("", "dc", "cat")]
     parts += [["count", n, count_for(n, tier)] for n in POOL + list(DECODER_CASES)]
+    parts += [["scan", o] for o in ("up", "down", "groups", "interleaved")]
     decs = list(THREAD_DECODERS)
     dq = decs if tier != "quick" else ["dec:inquiry_std", "dec:vpd83", "dec:rtpg", "dec:sense", "dec:prfull"]
     for a in dq:
@@ -572,6 +573,40 @@ def run_count(name, n):
     return []
 
 
+def run_scan(order):
+    """an opcode scanner in the same process: every pool class observed (build, decode, re-encode), then a minimal CDB marshalled for
+    every one of the 256 operation code values (those without a fixed length are refused) in the given order, the pool observed again
+    after every 32 values: nothing changes"""
+    from pyscsi.pyscsi.scsi_command import SCSICommand
+    bodies = {n: thread_body(n, 0) for n in POOL}
+    try:
+        ref = {n: b() for n, b in bodies.items()}
+    except Exception as e:   # noqa: BLE001
+        return [("scan_reference_raises", "building the pool classes once in a fresh process raised %s: %s" % (type(e).__name__, e))]
+    codes = list(range(256))
+    if order == "down":
+        codes.reverse()
+    elif order == "groups":
+        codes = [c for g in (0x80, 0xA0, 0x00, 0x20, 0x40, 0xC0, 0x60, 0xE0) for c in range(g, g + 0x20)]
+    elif order == "interleaved":
+        codes = [((i & 7) << 5) | (i >> 3) for i in range(256)]
+    for i, code in enumerate(codes):
+        try:
+            SCSICommand.marshall_cdb({"opcode": code})
+        except Exception:   # noqa: BLE001
+            pass
+        if i % 32 == 31:
+            for n, b in bodies.items():
+                try:
+                    again = b()
+                except Exception as e:   # noqa: BLE001
+                    again = ("raised", type(e).__name__, str(e)[:60])
+                if type(again[0]) is not type(ref[n][0]) or again != ref[n]:
+                    return [("scan_differs/%s" % n, "%s: after CDBs for %d operation code values (order %s, last %#04x) had been marshalled in the process, the same build gives %s, before %s"
+                             % (n, i + 1, order, code, again[0].hex() if isinstance(again[0], bytes) else again, ref[n][0].hex()))]
+    return []
+
+
 SEG_KINDS = (0x00, 0x01, 0x02, 0x0B, 0x0C, 0x0D)
 
 
@@ -662,6 +697,8 @@ def run_discard(case):
 
 
 def run_case(case):
+    if case[0] == "scan":
+        return run_scan(case[1])
     if case[0] == "count":
         return run_count(case[1], case[2])
     if case[0] == "segstar":
@@ -704,6 +741,16 @@ MAXTASKS = 1      # fresh forked worker per partition (the decode histories need
 def run_partition(part, tier, seed):
     acc = Acc(seed)
     b = bounds(tier)
+    if part[0] == "scan":
+        case = list(part)
+        acc.case(case, nontrivial=True, key=tuple(case))
+        v = run_scan(part[1])
+        acc.transitions += 256 + 8 * len(POOL)
+        acc.traces += 1
+        for k, w in v:
+            acc.violation(k, w, case)
+        acc.outcome((tuple(case), tuple(k for k, _ in v)))
+        return acc
     if part[0] == "count":
         case = list(part)
         acc.case(case, nontrivial=True, key=tuple(case))
